@@ -129,6 +129,7 @@ def Kind.goType (k : Kind) : String := "*ssa." ++ k.name
               · Select Blocking
     * `n1`  : Extract index · Field/FieldAddr field · Alloc array length
     * `s1`  : invoke method name · Alloc element type · TypeAssert asserted type · Select dirs
+              · MakeInterface: sanitizeType of the boxed value's type
     * `s2`  : Alloc array element type
     * `ops` : the operands, in the order of go/ssa's `Operands` -/
 structure Instr where
